@@ -353,3 +353,11 @@ func (l *VerifLRU) State() (keys, ids []uint64, dirty []bool, mapLen, listLen in
 	}
 	return keys, ids, dirty, len(l.c.cache), l.c.list.Len()
 }
+
+// VerifSetLastKey moves the database-wide row-id counter forward to k (never
+// backwards): the state of a database that has handed out k row ids before.
+func VerifSetLastKey(rs *RelationService, k uint32) {
+	if k > rs.fs.lastKey {
+		rs.fs.lastKey = k
+	}
+}
